@@ -71,18 +71,94 @@ class Check:
 
     # ------------------------------------------------------------------ solver queries
     def solve(self, constraints, timeout_ms=None):
-        """-> model | None (unsat) ; unknown => inconclusive"""
+        """-> model | None (unsat) | 'unknown'.  z3 first (bit-blasting); when it does not answer quickly the same query is
+        handed to cvc5 with its integer encoding of bit-vector arithmetic (--solve-bv-as-int=sum), which decides the linear
+        length/accounting arithmetic at once; a cvc5 'sat' is turned back into a z3 model by fixing the scalar values."""
+        full = timeout_ms or (20000 if self.tier == 'quick' else 120000)
         s = z3.Solver()
-        s.set('timeout', timeout_ms or (20000 if self.tier == 'quick' else 120000))
+        cur = getattr(self, '_cur', '')
+        hard = getattr(self, '_hard', None)
+        if hard is None:
+            hard = self._hard = {}
+        # obligation kinds that needed the integer encoding before go there almost directly
+        s.set('timeout', min(full, 250 if hard.get(cur, 0) >= 2 else 1500))
         s.set('random_seed', self.seed)
         s.add(*constraints)
         t = time.time()
         r = s.check()
-        self.query_s += time.time() - t
         if r == z3.unknown:
-            self.inconclusive.append('solver unknown on a property query: ' + s.reason_unknown())
+            hard[cur] = hard.get(cur, 0) + 1
+            r = self._cvc5(s, constraints, full)
+        self.query_s += time.time() - t
+        if os.environ.get('VERIF_DEBUG') and time.time() - t > 3:
+            print(f'SLOW QUERY {time.time() - t:.1f}s -> {r if not isinstance(r, z3.ModelRef) else "sat"} [{getattr(self, "_cur", "")}]', flush=True)
+        if isinstance(r, z3.ModelRef):
+            return r
+        if r == z3.unknown or r == 'unknown':
+            self.inconclusive.append('solver unknown on a property query [' + str(getattr(self, '_cur', '')) + ']')
             return 'unknown'
         return s.model() if r == z3.sat else None
+
+    def _cvc5(self, s, constraints, full_ms):
+        import subprocess, tempfile, re
+        self.cvc5_queries = getattr(self, 'cvc5_queries', 0) + 1
+        consts = {}
+        stack = list(constraints)
+        seen = set()
+        while stack:
+            e = stack.pop()
+            if e.get_id() in seen:
+                continue
+            seen.add(e.get_id())
+            if z3.is_const(e) and e.decl().kind() == z3.Z3_OP_UNINTERPRETED and (z3.is_bv(e) or z3.is_bool(e)):
+                consts[e.decl().name()] = e
+            stack.extend(e.children())
+        names = [n for n in consts if re.fullmatch(r'[A-Za-z_][A-Za-z0-9_@!.]*', n)]
+        txt = '(set-logic ALL)\n(set-option :produce-models true)\n' + s.to_smt2().replace('(check-sat)', '') + '\n(check-sat)\n'
+        q = txt
+        with tempfile.NamedTemporaryFile('w', suffix='.smt2', dir=os.path.join(prepare.WORK), delete=False) as f:
+            f.write(q)
+            path = f.name
+        try:
+            o = subprocess.run(['cvc5', '--lang', 'smt2', '--solve-bv-as-int=sum', f'--tlimit={min(full_ms, 60000)}', path],
+                               capture_output=True, text=True)
+            out = o.stdout.strip()
+            if '(error' in out or '(error' in o.stderr:
+                return z3.unknown
+            if out.startswith('unsat'):
+                self.cvc5_unsat = getattr(self, 'cvc5_unsat', 0) + 1
+                return z3.unsat
+            if out.startswith('sat') and names:
+                with open(path, 'a') as f:
+                    f.write('(get-value (' + ' '.join('|%s|' % n if not re.fullmatch(r'[A-Za-z_][A-Za-z0-9_]*', n) else n for n in names) + '))\n')
+                o = subprocess.run(['cvc5', '--lang', 'smt2', '--solve-bv-as-int=sum', f'--tlimit={min(full_ms, 60000)}', path],
+                                   capture_output=True, text=True)
+                vals = re.findall(r'\(\|?([^\s|()]+)\|? (#b[01]+|#x[0-9a-fA-F]+|true|false)\)', o.stdout)
+                s2 = z3.Solver()
+                s2.set('timeout', 20000)
+                s2.add(*constraints)
+                for n, v in vals:
+                    c = consts.get(n)
+                    if c is None:
+                        continue
+                    if v in ('true', 'false'):
+                        s2.add(c == (v == 'true'))
+                    elif v.startswith('#b'):
+                        s2.add(c == z3.BitVecVal(int(v[2:], 2), c.size()))
+                    else:
+                        s2.add(c == z3.BitVecVal(int(v[2:], 16), c.size()))
+                if s2.check() == z3.sat:
+                    return s2.model()
+                return z3.unknown
+            # neither: give z3 its full time
+            s.set('timeout', full_ms)
+            r = s.check()
+            return s.model() if r == z3.sat else r
+        finally:
+            try:
+                os.unlink(path)
+            except OSError:
+                pass
 
     def witness(self, constraints, prefer=()):
         """a model of constraints, preferring (in order) the optional `prefer` constraints (small, replayable witnesses)"""
@@ -102,6 +178,7 @@ class Check:
         harness): inside a listed region a reproduced witness is a KNOWN-FINDING, outside it is a VIOLATION.
         on_witness(model, where) -> (reproduced: bool|None, description, scenario) ; None = engine/native mismatch."""
         regions = regions or {}
+        self._cur = name
         if name in self.violated_names:
             return False          # one confirmed violation per obligation kind is enough to fail the check
         neg = z3.Not(prop)
@@ -155,6 +232,7 @@ class Check:
         """an obligation of the inductive argument only (state invariant preserved).  If it fails, the one-step result no
         longer extends to all histories: recorded as a gap (the bounded history checks remain the alarm), never an alarm."""
         self.obligations += 1
+        self._cur = 'inductive:' + name.split(':')[-1]
         m = self.solve(list(pc) + [z3.Not(prop)])
         if m is None:
             self.discharged += 1
@@ -216,7 +294,9 @@ class Check:
             'functions_encoded': fns,
             'solver': {'engine_checks': E.stats['checks'] if E else 0,
                        'engine_solver_s': round(E.stats['solver_s'], 2) if E else 0,
-                       'property_query_s': round(self.query_s, 2), 'z3': z3.get_version_string()},
+                       'property_query_s': round(self.query_s, 2), 'z3': z3.get_version_string(),
+                       'queries_handed_to_cvc5_int_encoding': getattr(self, 'cvc5_queries', 0),
+                       'of_which_unsat': getattr(self, 'cvc5_unsat', 0)},
             'native_replays_mismatching': self.replays_bad,
             'known_findings_reproduced': self.known_seen,
             'inconclusive': self.inconclusive[:20],
